@@ -50,6 +50,7 @@ type engProject struct {
 	Paths     map[int]string // path id -> path relative to the root
 	HelperVer int
 	Pad       map[string]int // per package: an unrelated global
+	Unknown   map[int]string // ids of labels that do not exist (missing dependencies)
 	nextID    int
 	nextPath  int
 	nextLit   int
@@ -57,6 +58,9 @@ type engProject struct {
 }
 
 func (p *engProject) label(id int) string {
+	if u, ok := p.Unknown[id]; ok {
+		return u
+	}
 	if t, ok := p.Targets[id]; ok {
 		return "//" + t.Pkg + ":" + t.Name
 	}
@@ -218,7 +222,9 @@ func (p *engProject) render(root string) error {
 	if err := os.WriteFile(filepath.Join(root, "cfg.dawn"), []byte(cfg.String()), 0644); err != nil {
 		return err
 	}
-	helpers := fmt.Sprintf("HV = %d\n\ndef helper():\n    return HV\n", p.HelperVer)
+	// the helper's environment holds a set and a dict of long strings (hash-ordered containers must be pickled in a
+	// process-independent order)
+	helpers := fmt.Sprintf("HV = %d\nHS = set([\"include/alpha/first_header.h\", \"include/beta/second_header.h\", \"include/gamma/third_header.h\", \"include/delta/fourth_header.h\"])\nHD = {\"a-rather-long-key-number-one\": 0, \"a-rather-long-key-number-two\": 0}\n\ndef helper():\n    return HV + len(HS) - 4 + HD[\"a-rather-long-key-number-one\"]\n", p.HelperVer)
 	return os.WriteFile(filepath.Join(root, "helpers.dawn"), []byte(helpers), 0644)
 }
 
@@ -479,6 +485,9 @@ func (r *engRun) labelIDAny(s string) int {
 var _ = bufio.NewReader
 
 func (r *engRun) noteLabels() {
+	for id, l := range r.p.Unknown {
+		r.allLabels[l] = id
+	}
 	for id := range r.p.Targets {
 		r.allLabels[r.p.label(id)] = id
 	}
